@@ -17,7 +17,8 @@ KINDS = ["inc", "exc", "unb"]
 DURS = [(0, 0), (0, 400000), (0, 499999), (0, 500000), (0, 500001), (0, 1000000), (0, 999499999), (0, 999500000), (0, 999999999), (1, 0), (2, 0), (1, 234567000), (59, 999600000),
         (3600, 1), (4294967295, 0), (4294967295, 999000000), (12345, 678499999), (7, 7000000), (0, 1500000), (0, 2500000)]
 STRS = [b"song.flac", b"my playlist", b"\xc3\xa9t\xc3\xa9", b"a/b c.mp3", b"with \"quote\" and blank", b"", b"tab\there", b"(x == \"y\") z", b"name=value", b"100%"]
-TAGS = [b"Artist", b"Album", b"MUSICBRAINZ_ALBUMID", b"any", b"x-custom", b"albumartist"]
+import codecgen as _cg
+TAGS = [b"Artist", b"Album", b"MUSICBRAINZ_ALBUMID", b"any", b"x-custom", b"albumartist"] + _cg.KNOWN_TAGS
 FILTERS = [
     {"k": "tag", "ctor": "tag", "tag": list(b"Artist"), "op": list(b"=="), "v": list(b"foo bar")},
     {"k": "and", "es": [{"k": "tag", "ctor": "new", "tag": list(b"Album"), "op": list(b"contains"), "v": list(b"it's")},
